@@ -257,7 +257,10 @@ func (t *thread) enabled() bool {
 // reschedule picks the next thread to run; t is the caller (parked at a point
 // or finished). It returns when t is resumed (never, if t is done).
 func (x *Exec) reschedule(t *thread) {
-	if x.steps > x.horizon {
+	if x.steps > x.horizon || len(x.threads) > maxThreads {
+		// (a loop that starts a goroutine per iteration is cut by the thread
+		// count long before the step horizon: every managed thread is a real
+		// goroutine with a vector clock)
 		x.finish(Horizon, t)
 		return
 	}
@@ -341,6 +344,10 @@ func (x *Exec) reschedule(t *thread) {
 		return
 	}
 }
+
+// maxThreads: an execution that has started more goroutines than this is
+// treated like one that exceeded the step horizon (non-termination).
+const maxThreads = 1200
 
 // freezeHorizon bounds how long (in visible steps of the other threads) a
 // frozen thread stays descheduled; deterministic, so replays agree.
